@@ -39,7 +39,7 @@ prop("C04",
 
 prop("C01",
      rule="rapid draws (asset: bundled or generated layout with 1-6 segments, uniform/alternating/irregular durations, 9 clocks incl. 1001-based, "
-          "1-2 fragments per segment; representation video / stpp text (plain and image subtitles) / thumbnails; start, startNumber; live index n "
+          "1-2 fragments per segment, video-only layouts whose first sample has a decode time other than 0; representation video / stpp text (plain and image subtitles) / thumbnails; start, startNumber; live index n "
           "right after start, around loop wraps, many wraps, year-2026 and year-2090 distance, near number 2^32). For each case the segment is "
           "fetched by Number, by Time and by Timeline-Number and parsed independently: sequence number, per-fragment tfdt = VoD tfdt + w*L, full "
           "sample list incl. payload located through trun.data_offset, sidx, byte-identical thumbnails, TTML timestamps moved by round(offset), "
@@ -198,7 +198,9 @@ prop("C08",
           "/patch with hostile publishTime, /api create/info/step/delete with hostile JSON and ids, /vod, static and misc routes. Oracle: no "
           "panic (value and first livesim2 frame reported), returns within 10 s (re-run alone before it is called a hang), deliberate status, "
           "4xx with a message for malformed / documented out-of-range values, 404 for unknown assets and segments. Non-trivial = a request "
-          "that got past URL parsing (status != 400); distinct by method+URL+body. Receiver part (TestC08Receiver): histories of 3-14 uploads "
+          "that got past URL parsing (status != 400); distinct by method+URL+body. Also: low-latency boundary requests (ato at/around the asset's "
+          "segment duration with chunkdur), BaseURL indices up to and beyond the number of traffic patterns, option-like path parts after the asset "
+          "name. Receiver part (TestC08Receiver): histories of 3-14 uploads "
           "to a fresh receiver: valid init/media segments of video/audio/text tracks on 1-2 channels, and the same with 1-3 mutations (box size "
           "fields set to 0,1,2,7,8,9,..,16 MiB, ~4 GiB or +-1..9; box types swapped incl. container/leaf confusion; truncation anywhere and inside "
           "headers; 32-bit payload fields set to hostile values; trailing bytes; duplicated / swapped boxes; bit flips), hostile paths, all "
@@ -215,7 +217,7 @@ prop("C17",
      rule="rapid draws a channel of 1-4 tracks (master video, second video, audio, wvtt text rescaled to 1000 Hz), segment duration 1/2/3.84 s, "
           "timeShiftBufferDepth 4..300 s (windows smaller and larger than the run), startNr 0/1, Streams() or per-segment URLs, 1-12 segments "
           "per track in order / with gaps / with duplicates / shuffled / with one late track, merged into one interleaving by drawn choices; "
-          "optionally a catch-up suffix of window+5 fresh consecutive numbers on every track. After every upload the hook VerifQuiesce gives a "
+          "one track whose init segment arrives only after the channel has started; in-order schedules where every fourth segment is half as long; optionally a catch-up suffix of window+5 fresh consecutive numbers on every track. After every upload the hook VerifQuiesce gives a "
           "defined observation point and the invariant is evaluated: accepted upload stored under track/<seq> with the uploaded content "
           "(text: rescaled time), MPD file a complete document (also for a poller that reads it while the uploads go on), same contiguous range in every adaptation set, every listed number stored "
           "for every track with equal (t,d), every track represented, newest listed number never decreases, buffers/counters/storage within "
@@ -249,7 +251,7 @@ prop("C16",
           "creation (only init segments may ever arrive), startNumber 1/7, receivers answering 500 to every 2nd media upload (stream goes on, no "
           "retry) or 403 to an init (no media), URLs with a statuscode_ pattern (affected segments may be absent, the rest in order and "
           "faithful), 2.002 s and 1001-based segment durations, low-latency sessions (ato 3/4, chunkdur 1/4 of a 1.0-1.6 s segment, chunked "
-          "transfer; also combined with statuscode_), an upload aborted by deleting the session. Non-trivial = a history with >= 3 effective "
+          "transfer; also combined with statuscode_), an upload aborted by deleting the session, bursts of steps issued without waiting (uploads of one representation never overlap), and - thorough tier only - testpic_8s with two ~150 KiB chunks per segment towards a slow receiver. Non-trivial = a history with >= 3 effective "
           "steps on a session with >= 2 representations.",
      quick=dict(shards=2, timeout=500), thorough=dict(shards=16, timeout=1500, pct=250), crash_is_violation=True,
      assumptions=COMMON + ["step mode (testNowMS) only: wall-clock pacing of the session loop is not exercised; chunked sessions are exercised with 1.0-1.6 s segments (each step is produced in real time)",
